@@ -117,6 +117,15 @@ def inject(data, fault, rnd):
         return 'root state of type history'
     if fault in ('initial_unknown', 'initial_not_child'):
         cand = [s for s, _ in sts if s.get('states') and not s.get('type')]
+        bare = [s for s, _ in sts if isinstance(s, dict) and not s.get('type') and 'states' not in s
+                and 'parallel states' not in s]
+        if bare and (not cand or rnd.random() < 0.3):
+            # a compound state without any child (`states: []`) that declares an initial state all the same
+            s = rnd.choice(bare)
+            s['states'] = []
+            s['initial'] = 'no-such-state' if fault == 'initial_unknown' or len(names) < 2 else \
+                rnd.choice([n for n in names if n != s.get('name')])
+            return '%s on the childless compound state %r' % (fault, s['name'])
         if not cand:
             return None
         s = rnd.choice(cand)
